@@ -8,6 +8,7 @@ from .core import Report, rs
 
 CANDS = ["A", "B", "C"]
 SHARES = [F(1, 3), F(1, 2), F(3, 5), F(2, 3)]
+_LOSERS = {}
 TRUTHY = [True, 1, 5, "marked"]
 FALSY = [False, 0, "", None]     # None = the candidate key is absent
 
@@ -125,14 +126,16 @@ def run_profile(tid, ballots, rng):
                 e["tmargin_style"] = guard("plur.tally_margin", lambda: tm(n_style)) if n_style else "nan"
                 e["tmargin_all"] = guard("plur.tally_margin", lambda: tm(len(cvrs)))
                 rec["plur"].append(e)
-    # super-majority
+    # super-majority (the caller's loser list is one long-lived object per winner, as a contest's would be;
+    # share_to_win is given by keyword in some calls and left to the contest in others)
     for w in CANDS:
         for f in SHARES:
-            L = [c for c in CANDS if c != w]
+            L = _LOSERS.setdefault(w, [c for c in CANDS if c != w])
             con = contest(Contest.SOCIAL_CHOICE_FUNCTION.SUPERMAJORITY, share=float(f), winner=[w], cards=n_style)
-            asns = guard("make_supermajority", lambda: Assertion.make_supermajority_assertion(
-                contest=con, share_to_win=float(f), winner=w, loser=L, test=NonnegMean.alpha_mart,
-                estim=NonnegMean.fixed_alternative_mean), "exc")
+            kws = dict(contest=con, winner=w, loser=L, test=NonnegMean.alpha_mart, estim=NonnegMean.fixed_alternative_mean)
+            if rng.random() < 0.5:
+                kws["share_to_win"] = float(f)
+            asns = guard("make_supermajority", lambda: Assertion.make_supermajority_assertion(**kws), "exc")
             if asns == "exc":
                 continue
             a = next(iter(asns.values()))
@@ -162,7 +165,8 @@ def run(pid, tier):
     rng = random.Random(core.seed() * 104729 + 5)
     maxb = 5 if tier == "quick" else 6
     mod, text, cfg = mc_cfg(maxb, emit=True)
-    res = core.run_tlc(mod, cfg, workers=8, extra_files=[(mod + ".tla", text)], timeout=3000)
+    res = core.run_tlc(mod, cfg, workers=8, extra_files=[(mod + ".tla", text)], timeout=3000, coverage=True)
+    core.require_actions(res, ["AddBallot"], "BallotsMC")
     rep.add_tlc("MC BallotsMC", res, consts={"Cands": CANDS, "MaxBallots": maxb, "Shares": [str(s) for s in SHARES]})
     if res.error:
         raise core.MachineryError(res.error[:2000])
